@@ -66,6 +66,10 @@ class C19(Prop):
         for it in range(n):
             k = rng.choice([1, 2, 2, 3, 3, 4, 5, 6])
             stages = [self._rand_stage(rng) for _ in range(k)]
+            if rng.random() < 0.12:
+                # one processor re-enters run() on its own cascade (search-only: overlapping runs of one object)
+                j = rng.randrange(k)
+                stages[j] = (stages[j][0], "nest") + stages[j][2:]
             case = self._case(rng.random() < 0.5, rng.choice(MAXA), stages, rng.choice([0, 1, 2, 7]), "random")
             r0 = rng.random()
             if r0 < 0.15:
@@ -158,8 +162,22 @@ class C19(Prop):
                         c = self._case(halt, "4", [s1, s2], 1, "exhaustive observer")
                         c["lines"].insert(1, f"observer {ob}")
                         extra.append(c)
+        nested = []
+        for halt in (True, False):
+            for mx in ("4", "100"):
+                for s1 in small:
+                    for amp in ("2", "3"):
+                        nst = ("none", "nest", "none", True, amp)
+                        nested.append(self._case(halt, mx, [s1, nst], 1, "exhaustive re-entrant processor"))
+                        nested.append(self._case(halt, mx, [nst, s1], 1, "exhaustive re-entrant processor"))
+                nested.append(self._case(halt, mx, [("pass", "nest", "none", True, "2"), ("pass", "nest", "none", True, "3"),
+                                                    ("none", "ok", "none", True, "5")], 2, "two re-entrant processors"))
+        for c in nested[::7]:
+            c["lines"] += ["run 2", "stats"]
         return [{"name": f"all pipelines of <= {depth} stages over the behaviour alphabet x both halt settings",
                  "cases": cases},
+                {"name": "a processor that re-enters run() on its own cascade x 2-stage pipelines x halt x max (each nested run judged "
+                         "as a run of its own)", "cases": nested},
                 {"name": "the shipped MAPK preset x halt x max amplification x tier factors", "cases": mapk},
                 {"name": "construction mode x 2-stage pipelines; on_stage_complete observer scripts x 2-stage pipelines",
                  "cases": extra},
@@ -205,7 +223,23 @@ class C19(Prop):
 
             def pf(x):
                 log.append(f"p{pos()}:{sig(x)}")
-                if pr != "ok":
+                if pr == "nest":
+                    # a processor that re-enters run() on its own cascade (once: not from inside a nested run); the nested
+                    # run gets a log and an observer list of its own and is judged as a run of its own
+                    if depth[0] == 0:
+                        depth[0] += 1
+                        saved_log, saved_seen = log[:], seen[:]
+                        del log[:]
+                        del seen[:]
+                        try:
+                            inner.append(render(casc.run(3)))
+                        except Exception as e:          # a nested run that raises is an observation, not a fault
+                            inner.append(f"raise:{type(e).__name__}")
+                        finally:
+                            log[:] = saved_log
+                            seen[:] = saved_seen
+                            depth[0] -= 1
+                elif pr != "ok":
                     raise fault(pr, "p")
                 return x * 10 + i0 + 1
 
@@ -217,6 +251,22 @@ class C19(Prop):
             st = m.CascadeStage(name, pf, amplification=amp, checkpoint=None if cp == "none" else cpf,
                                 on_error=None if eh == "none" else ef, required=req)
             return d, st
+
+        depth = [0]
+        inner = []     # renderings of the nested runs started by `nest` processors during the current outer run
+
+        def render(r):
+            st = {"completed": "c", "failed": "f", "skipped": "s", "blocked": "b"}
+            names = [d["name"] for d in cur]
+            uniq = len(set(names)) == len(names)
+            res = ",".join(f"{names.index(s.stage_name) if uniq and s.stage_name in names else j}"
+                           f"{st.get(s.status.value, '?')}:{show_rat(s.amplification_factor)}"
+                           for j, s in enumerate(r.stage_results))
+            fin = "none" if r.final_output is None else f"some:{sig(r.final_output)}"
+            blk = "none" if r.blocked_at is None else str(r.blocked_at)
+            return " ".join([show_bool(r.success), fin, str(r.stages_completed), str(r.stages_total),
+                             show_rat(r.total_amplification), blk, "[" + res + "]",
+                             "[" + ",".join(log) + "]", "[" + ",".join(map(str, seen)) + "]"])
 
         def ensure():
             nonlocal casc
@@ -332,18 +382,10 @@ class C19(Prop):
                     ensure()
                     del log[:]
                     del seen[:]
-                    r = casc.run(int(t[1]))
-                    st = {"completed": "c", "failed": "f", "skipped": "s", "blocked": "b"}
-                    names = [d["name"] for d in cur]
-                    uniq = len(set(names)) == len(names)
-                    res = ",".join(f"{names.index(s.stage_name) if uniq and s.stage_name in names else j}"
-                                   f"{st.get(s.status.value, '?')}:{show_rat(s.amplification_factor)}"
-                                   for j, s in enumerate(r.stage_results))
-                    fin = "none" if r.final_output is None else f"some:{sig(r.final_output)}"
-                    blk = "none" if r.blocked_at is None else str(r.blocked_at)
-                    obs.append(" ".join([show_bool(r.success), fin, str(r.stages_completed), str(r.stages_total),
-                                         show_rat(r.total_amplification), blk, "[" + res + "]",
-                                         "[" + ",".join(log) + "]", "[" + ",".join(map(str, seen)) + "]"]))
+                    del inner[:]
+                    depth[0] = 0
+                    outer = render(casc.run(int(t[1])))
+                    obs.append(" | ".join([outer] + inner))
                 else:
                     obs.append("bad-op")
             except Exception as e:
@@ -382,78 +424,85 @@ class C19(Prop):
                 out.append(Violation("call_returns", "a result", o, idx))
                 continue
             if t[0] == "run" and len(t) == 2:
-                f = o.split(" ")
-                success, fin = f[0] == "1", f[1]
-                res = [x for x in f[6][1:-1].split(",") if x]
-                log = [x for x in f[7][1:-1].split(",") if x]
+                for part_i, part in enumerate(o.split(" | ")):
+                  # part 0 = the run asked for; further parts = runs nested in it by `nest` processors (input signal 3)
+                  if part.startswith("raise:"):
+                      out.append(Violation("call_returns", "a result (nested run)", part, idx))
+                      continue
+                  x_in = int(t[1]) if part_i == 0 else 3
+                  o_ = part
+                  f = o_.split(" ")
+                  success, fin = f[0] == "1", f[1]
+                  res = [x for x in f[6][1:-1].split(",") if x]
+                  log = [x for x in f[7][1:-1].split(",") if x]
 
-                def gate_value(cp, sig):
-                    # what the checkpoint of kind cp answers for signal sig (None = raises)
-                    if cp in ("raise", "raise0"):
-                        return None
-                    v = int(sig) if sig.lstrip("-").isdigit() else None
-                    if cp.startswith("mapk") and v == 0:
-                        return None             # raw input: x.get raises
-                    return {"pass": True, "reject": False, "odd": v is not None and v % 2 == 1,
-                            "lt50": v is not None and v < 50, "mapk2": v is not None and v >= 1,
-                            "mapk3": v == 2}[cp]
-                # 1. processor only directly after a checkpoint call of THIS stage, on the same signal, that returned true
-                for j, ev in enumerate(log):
-                    if ev.startswith("p"):
-                        i, sig = ev[1:].split(":")
-                        if int(i) < len(beh) and beh[int(i)][0] != "none":
-                            want = f"cp{i}:{sig}:t"
-                            if j == 0 or log[j - 1] != want or gate_value(beh[int(i)][0], sig) is not True:
-                                out.append(Violation("processor_only_after_true_checkpoint", f"{want} right before {ev}",
-                                                     f"log={log}", idx))
-                # 2. halt: nothing after a blocked / failed stage
-                stage_of = lambda e: int(e.lstrip("cpe").split(":")[0])
-                if halt:
-                    for r_ in res:
-                        i = int(r_.split(":")[0][:-1])
-                        if r_.split(":")[0][-1] in "bf":
-                            late = [e for e in log if stage_of(e) > i]
-                            if late:
-                                out.append(Violation("halt_runs_nothing_further", f"no callback after stage {i}",
-                                                     f"{late}", idx))
-                # 2b. the observer is shown a stage only if its processor ran and it has a COMPLETED result
-                if len(f) > 8:
-                    for j in [x for x in f[8][1:-1].split(",") if x]:
-                        if not any(e.startswith(f"p{j}:") for e in log) or f"{j}c" not in [r_.split(":")[0] for r_ in res]:
-                            out.append(Violation("observer_sees_only_completed_stages", f"stage {j} completed", o, idx))
-                # 3. success iff every stage completed in order
-                # (an on_stage_complete observer, returning or raising, relaxes nothing)
-                all_c = [r_.split(":")[0] for r_ in res] == [f"{i}c" for i in range(len(beh))]
-                if success != all_c:
-                    out.append(Violation("success_iff_all_completed_in_order", f"success={all_c}", o, idx))
-                # 4./5. final output
-                if success:
-                    x = int(t[1])
-                    for b in beh:
-                        if b[1].startswith("mapk"):
-                            k = int(b[1][4:])
-                            x = 1 if k == 1 else k
-                        else:
-                            x = (x * 10 + b[5] + 1) if b[1] == "ok" else 7000 + b[5]
-                    if fin != f"some:{x}":
-                        out.append(Violation("final_output_is_composition", f"some:{x}", fin, idx))
-                    if any(b[0] in ("reject", "raise", "raise0") for b in beh):
-                        out.append(Violation("success_with_failing_gate", "no success", o, idx))
-                elif fin != "none":
-                    out.append(Violation("no_output_unless_success", "none", fin, idx))
-                # 6. amplification = clamped product of completed stages' DECLARED factors (recovered stages count 1)
-                if maxa >= 1:
-                    a = Fraction(1)
-                    for r_ in res:
-                        tag, fac = r_.split(":")
-                        i = int(tag[:-1])
-                        if tag.endswith("c") and i < len(beh):
-                            declared = beh[i][4] if f"e{i}" not in log else Fraction(1)
-                            if Fraction(fac) != declared:
-                                out.append(Violation("reported_factor_is_the_stage_factor", show_rat(declared), fac, idx))
-                            a = min(a * declared, maxa)
-                    if show_rat(a) != f[4]:
-                        out.append(Violation("amplification_is_clamped_product", show_rat(a), f[4], idx))
+                  def gate_value(cp, sig):
+                      # what the checkpoint of kind cp answers for signal sig (None = raises)
+                      if cp in ("raise", "raise0"):
+                          return None
+                      v = int(sig) if sig.lstrip("-").isdigit() else None
+                      if cp.startswith("mapk") and v == 0:
+                          return None             # raw input: x.get raises
+                      return {"pass": True, "reject": False, "odd": v is not None and v % 2 == 1,
+                              "lt50": v is not None and v < 50, "mapk2": v is not None and v >= 1,
+                              "mapk3": v == 2}[cp]
+                  # 1. processor only directly after a checkpoint call of THIS stage, on the same signal, that returned true
+                  for j, ev in enumerate(log):
+                      if ev.startswith("p"):
+                          i, sig = ev[1:].split(":")
+                          if int(i) < len(beh) and beh[int(i)][0] != "none":
+                              want = f"cp{i}:{sig}:t"
+                              if j == 0 or log[j - 1] != want or gate_value(beh[int(i)][0], sig) is not True:
+                                  out.append(Violation("processor_only_after_true_checkpoint", f"{want} right before {ev}",
+                                                       f"log={log}", idx))
+                  # 2. halt: nothing after a blocked / failed stage
+                  stage_of = lambda e: int(e.lstrip("cpe").split(":")[0])
+                  if halt:
+                      for r_ in res:
+                          i = int(r_.split(":")[0][:-1])
+                          if r_.split(":")[0][-1] in "bf":
+                              late = [e for e in log if stage_of(e) > i]
+                              if late:
+                                  out.append(Violation("halt_runs_nothing_further", f"no callback after stage {i}",
+                                                       f"{late}", idx))
+                  # 2b. the observer is shown a stage only if its processor ran and it has a COMPLETED result
+                  if len(f) > 8:
+                      for j in [x for x in f[8][1:-1].split(",") if x]:
+                          if not any(e.startswith(f"p{j}:") for e in log) or f"{j}c" not in [r_.split(":")[0] for r_ in res]:
+                              out.append(Violation("observer_sees_only_completed_stages", f"stage {j} completed", o, idx))
+                  # 3. success iff every stage completed in order
+                  # (an on_stage_complete observer, returning or raising, relaxes nothing)
+                  all_c = [r_.split(":")[0] for r_ in res] == [f"{i}c" for i in range(len(beh))]
+                  if success != all_c:
+                      out.append(Violation("success_iff_all_completed_in_order", f"success={all_c}", o, idx))
+                  # 4./5. final output
+                  if success:
+                      x = x_in
+                      for b in beh:
+                          if b[1].startswith("mapk"):
+                              k = int(b[1][4:])
+                              x = 1 if k == 1 else k
+                          else:
+                              x = (x * 10 + b[5] + 1) if b[1] in ("ok", "nest") else 7000 + b[5]
+                      if fin != f"some:{x}":
+                          out.append(Violation("final_output_is_composition", f"some:{x}", fin, idx))
+                      if any(b[0] in ("reject", "raise", "raise0") for b in beh):
+                          out.append(Violation("success_with_failing_gate", "no success", o, idx))
+                  elif fin != "none":
+                      out.append(Violation("no_output_unless_success", "none", fin, idx))
+                  # 6. amplification = clamped product of completed stages' DECLARED factors (recovered stages count 1)
+                  if maxa >= 1:
+                      a = Fraction(1)
+                      for r_ in res:
+                          tag, fac = r_.split(":")
+                          i = int(tag[:-1])
+                          if tag.endswith("c") and i < len(beh):
+                              declared = beh[i][4] if f"e{i}" not in log else Fraction(1)
+                              if Fraction(fac) != declared:
+                                  out.append(Violation("reported_factor_is_the_stage_factor", show_rat(declared), fac, idx))
+                              a = min(a * declared, maxa)
+                      if show_rat(a) != f[4]:
+                          out.append(Violation("amplification_is_clamped_product", show_rat(a), f[4], idx))
         return out
 
     def nontrivial(self, case, obs):
